@@ -6,7 +6,7 @@ CLAUSE = ("a version is accepted iff its parent is the latest (any parent when n
           "its parent to every handle; an unknown parent yields 'no such version'; a stored snapshot is returned "
           "intact with its version")
 
-KINDS = [("local", 150, 2000), ("cloud", 60, 800), ("git", 24, 300), ("gitremote", 24, 300), ("http", 40, 600)]
+KINDS = [("local", 150, 2000), ("cloud", 60, 800), ("git", 24, 300), ("gitremote", 24, 300), ("http", 60, 800)]
 
 
 def run(ck):
